@@ -110,6 +110,23 @@ def check(ctx):
     ctx.require(len(rets) == 1, "get_order_overriding is not a single return")
     v = rets[0].value
     verdict, why = None, ""
+    if isinstance(v, ast.Name):
+        # explicit loop over the MRO filling the returned dict
+        loops_ = [n for n in goo.node.body if isinstance(n, ast.For) and "__mro__" in norm(n.iter)]
+        if len(loops_) == 1:
+            lp = loops_[0]
+            stores = [n for n in ast.walk(lp) if isinstance(n, ast.Subscript) and isinstance(n.ctx, ast.Store) and norm(n.value) == v.id]
+            defaults = [n for n in ast.walk(lp) if isinstance(n, ast.Call) and isinstance(n.func, ast.Attribute) and n.func.attr == "setdefault" and norm(n.func.value) == v.id]
+            rev = norm(lp.iter) == "reversed(cls.__mro__)"
+            if stores and not defaults:
+                verdict = rev
+                why = ("loop over reversed(cls.__mro__) with plain stores: the most derived class is written last and wins" if rev
+                       else "loop over cls.__mro__ with plain stores: base-class entries are written last and overwrite those of the subclass")
+            elif defaults and not stores:
+                verdict = not rev
+                why = ("loop over cls.__mro__ with setdefault: the most derived class is written first and kept" if not rev
+                       else "loop over reversed(cls.__mro__) with setdefault: the base-most entry is kept")
+        v = loops_[0] if len(loops_) == 1 else v
     if isinstance(v, ast.DictComp):
         its = [norm(g.iter) for g in v.generators]
         if any(i == "reversed(cls.__mro__)" for i in its):
@@ -255,6 +272,10 @@ def mutants(mb):
     S = "apischema/serialization/__init__.py"
     J = "apischema/json_schema/schema.py"
     G = "apischema/graphql/schema.py"
+    mb.add_text("mro-loop-not-reversed", O, "    return {\n        get_field_name(field, methods=True): ordering\n        for sub_cls in reversed(cls.__mro__)\n        if sub_cls in _order_overriding\n        for field, ordering in _order_overriding[sub_cls].items()\n    }\n",
+                "    overriding = {}\n    for sub_cls in cls.__mro__:\n        if sub_cls not in _order_overriding:\n            continue\n        for field, ordering in _order_overriding[sub_cls].items():\n            overriding[get_field_name(field, methods=True)] = ordering\n    return overriding\n", "C16.R3", "get_order_overriding")
+    mb.add_text("neg-mro-loop-reversed", O, "    return {\n        get_field_name(field, methods=True): ordering\n        for sub_cls in reversed(cls.__mro__)\n        if sub_cls in _order_overriding\n        for field, ordering in _order_overriding[sub_cls].items()\n    }\n",
+                "    overriding = {}\n    for sub_cls in reversed(cls.__mro__):\n        if sub_cls not in _order_overriding:\n            continue\n        for field, ordering in _order_overriding[sub_cls].items():\n            overriding[get_field_name(field, methods=True)] = ordering\n    return overriding\n", negative=True)
     mb.add_text("mro-not-reversed", O, "        for sub_cls in reversed(cls.__mro__)\n", "        for sub_cls in cls.__mro__\n", "C16.R3", "get_order_overriding")
     mb.add_text("chainmap-reversed", O, "    return {\n        get_field_name(field, methods=True): ordering\n        for sub_cls in reversed(cls.__mro__)\n        if sub_cls in _order_overriding\n        for field, ordering in _order_overriding[sub_cls].items()\n    }\n",
                 "    from collections import ChainMap\n    return ChainMap(*({get_field_name(f, methods=True): o for f, o in _order_overriding[sub_cls].items()} for sub_cls in reversed(cls.__mro__) if sub_cls in _order_overriding))\n", "C16.R3", "get_order_overriding")
